@@ -11,4 +11,7 @@ structure FConst where
 /-- The executable reading: exactly the `f64` the Rust compiler produced. -/
 def FConst.toFloat (c : FConst) : Float := Float.ofBits c.bits
 
+/-- The exact rational value `num * 2^exp` the constant denotes. -/
+def FConst.toRat (c : FConst) : Rat := (c.num : Rat) * (2 : Rat) ^ c.exp
+
 end A5
